@@ -1,0 +1,58 @@
+//go:build verif
+
+package xixi_kv
+
+import "github.com/XiXi-2024/xixi-kv/datafile"
+
+// VerifFile describes one open data file as the engine sees it.
+type VerifFile struct {
+	ID     uint32
+	Size   int64 // logical size
+	Active bool
+}
+
+// VerifEntry is one index entry.
+type VerifEntry struct {
+	Key []byte
+	Pos datafile.DataPos
+}
+
+// VerifState is the projection of the engine state used by the
+// verification harness. It takes no engine lock: call it only when no
+// other goroutine uses the database (or while holding a batch).
+type VerifState struct {
+	Files       []VerifFile
+	Index       []VerifEntry // ascending key order
+	TotalSize   int64
+	ReclaimSize int64
+	BytesWrite  uint
+	IsMerging   bool
+}
+
+func (db *DB) VerifState() *VerifState {
+	st := &VerifState{
+		TotalSize:   db.totalSize,
+		ReclaimSize: db.reclaimSize,
+		BytesWrite:  db.bytesWrite,
+		IsMerging:   db.isMerging,
+	}
+	for id, f := range db.olderFiles {
+		st.Files = append(st.Files, VerifFile{ID: id, Size: f.Size()})
+	}
+	if db.activeFile != nil {
+		st.Files = append(st.Files, VerifFile{ID: db.activeFile.ID, Size: db.activeFile.Size(), Active: true})
+	}
+	it := db.index.Iterator(false)
+	defer it.Close()
+	for it.Rewind(); it.Valid(); it.Next() {
+		k := append([]byte(nil), it.Key()...)
+		st.Index = append(st.Index, VerifEntry{Key: k, Pos: *it.Value()})
+	}
+	return st
+}
+
+// VerifBatchID returns the batch's id as written to the log.
+func (b *Batch) VerifBatchID() uint64 { return uint64(b.batchID) }
+
+// VerifMergePath returns the merge directory used for this database.
+func (db *DB) VerifMergePath() string { return db.mergePath() }
